@@ -205,6 +205,7 @@ class Ctx:
         self.in_spec += 1
         n_assumed = len(self.assumptions)
         n_univ = len(self.universals)
+        saved_caches = (dict(self.divmod_cache), dict(self.sqrt_terms))
         try:
             try:
                 fn(*dummies)
@@ -216,6 +217,7 @@ class Ctx:
             self.in_spec -= 1
             del self.assumptions[n_assumed:]
             del self.universals[n_univ:]
+            self.divmod_cache, self.sqrt_terms = saved_caches
         pats = []
         seen = set()
         partial = {}
